@@ -58,6 +58,11 @@ type pathElem struct{ Mod, Name string }
 type augTarget struct {
 	Path     []pathElem
 	Children map[string]bool
+	// ListWrapper: the node is a container whose sole child is a list, i.e. the "surrounding
+	// container" that path compression removes. docs/design.md states the shape -compress_paths
+	// relies on ("list nodes are enclosed in a container, which they are the sole child of"), so a
+	// node added next to the list takes the schema out of the domain of -compress_paths.
+	ListWrapper bool
 }
 
 func (a augTarget) String() string {
@@ -99,7 +104,13 @@ func (yi *yangInfo) augmentTargets(rootModules map[string]bool) []augTarget {
 				}
 			}
 			names(c)
-			out = append(out, augTarget{Path: p, Children: ch})
+			wrapper := false
+			if c.IsContainer() && len(c.Dir) == 1 {
+				for _, only := range c.Dir {
+					wrapper = only.IsList()
+				}
+			}
+			out = append(out, augTarget{Path: p, Children: ch, ListWrapper: wrapper})
 			walk(c, p)
 		}
 	}
